@@ -677,7 +677,7 @@ func (p *Proc) evalCompositeLit(ec *ectx, x *ast.CompositeLit, addr bool) Val {
 			}
 			inner = Store(inner, IntLit(int64(i)), p.convert(ec, p.eval(ec, el), ut.Elem()))
 		}
-		key := "SH:" + string(es)
+		key := p.sliceHeapKey(ut.Elem())
 		h := p.heapGet(ec.st, key, ArrSort(SInt, ArrSort(SInt, es)))
 		p.heapSet(ec.st, key, Store(h, r, inner))
 		return Val{T: MkSlice(r, IntLit(0), IntLit(n), IntLit(n)), Typ: typ}
@@ -992,10 +992,20 @@ func (c *Ctx) litVal(name string) string { v, _ := c.litValue(name); return v }
 
 // ---------------------------------------------------------------------------
 
-func (p *Proc) sliceHeapKey(elem types.Type) string { return "SH:" + string(p.ctx.sortOf(elem)) }
+// Slice and map heaps are keyed by Go type: values of different Go types never alias.
+func (p *Proc) sliceHeapKey(elem types.Type) string { return "SH:" + p.typeKey(elem) }
+
+func (p *Proc) typeKey(t types.Type) string {
+	if _, ok := t.Underlying().(*types.Basic); ok {
+		if _, named := t.(*types.Named); !named {
+			return string(p.ctx.sortOf(t))
+		}
+	}
+	return types.TypeString(t, func(pk *types.Package) string { return pk.Name() })
+}
 func (p *Proc) sliceHeap(st *State, elem types.Type) *Term {
 	es := p.ctx.sortOf(elem)
-	return p.heapGet(st, "SH:"+string(es), ArrSort(SInt, ArrSort(SInt, es)))
+	return p.heapGet(st, p.sliceHeapKey(elem), ArrSort(SInt, ArrSort(SInt, es)))
 }
 
 func (p *Proc) evalIndex(ec *ectx, x *ast.IndexExpr) Val {
@@ -1043,7 +1053,7 @@ func (p *Proc) indexVal(ec *ectx, base, idx Val, n ast.Node) Val {
 
 func (p *Proc) mapKeys(mt *types.Map) (string, Sort, Sort) {
 	ks, vs := p.ctx.sortOf(mt.Key()), p.ctx.sortOf(mt.Elem())
-	return string(ks) + "|" + string(vs), ks, vs
+	return "map[" + p.typeKey(mt.Key()) + "]" + p.typeKey(mt.Elem()), ks, vs
 }
 
 func (p *Proc) mapHeaps(st *State, mt *types.Map) (dom, val, card *Term) {
